@@ -14,7 +14,7 @@ pub fn scenarios(prop: &str) -> Vec<Box<dyn Scenario>> {
         "C18" => vec![Box::new(scen_time::Timers)],
         "C12" => vec![Box::new(scen_sample::FixedFraction), Box::new(scen_sample::Congress)],
         "C17" => vec![Box::new(scen_global::GlobalRouting)],
-        "C16" => vec![Box::new(scen_emf::EmfWriterFaults), Box::new(scen_emf::SinkFaults)],
+        "C16" => vec![Box::new(scen_emf::EmfWriterFaults), Box::new(scen_emf::SinkFaults), Box::new(scen_emf::Pipeline)],
         "C09" => vec![Box::new(scen_queue::QueueOverflow)],
         "C10" => vec![Box::new(scen_agg::Aggregation)],
         "C11" => vec![Box::new(scen_hist::Histograms)],
@@ -46,7 +46,7 @@ pub fn budget(prop: &str, tier: Tier) -> Budget {
         "C17" => (100_000, 600),
         "C18" => (150_000, 480),
         "C12" => (20_000, 480),
-        "C16" => (6_000, 600),
+        "C16" => (12_000, 600),
         "C10" => (100_000, 600),
         "C20" => (300_000, 600),
         "C11" => (200_000, 600),
